@@ -16,6 +16,8 @@ def main():
         for exe in ("record", "replay", "record_algo", "record_proto"):
             jobs.append((fl, exe))
     jobs.append(("asan", "record_algo"))
+    jobs.append(("rel", "record_sched"))
+    jobs.append(("tsan", "record_sched"))
     vlib.build_many(jobs)
     print("setup ok: %d harness builds" % len(jobs))
     return 1 if bad else 0
